@@ -362,6 +362,8 @@ class VG:
             return conj(cs)
         if k == 'pref':
             return self.pat_cond(p['pat'], v)
+        if k == 'pstruct' and not pat_is_some(p) and not pat_is_none(p):
+            return TRUE
         if k == 'por':
             alts = [self.pat_cond(x, v) for x in p['pats']]
             if any(a == TRUE for a in alts):
@@ -415,6 +417,19 @@ class VG:
                 self.bind_pat(p['pat'], self.read_place(v[1]), fr)
             else:
                 self.bind_pat(p['pat'], v, fr)
+            return
+        if k == 'pstruct':
+            for f in p['fields']:
+                fv = None
+                if isinstance(v, tuple) and v and v[0] == 'selfref':
+                    fv = ('ref', ('field', v[1] + f['name']))
+                elif isinstance(v, tuple) and v and v[0] == 'ref' and v[1][0] == 'field':
+                    fv = ('ref', ('field', v[1][1] + '.' + f['name']))
+                elif isinstance(v, tuple) and v and v[0] == 'struct':
+                    fv = v[2].get(f['name'])
+                if fv is None:
+                    fv = ('fieldof', v, f['name'])
+                self.bind_pat(f['pat'], fv, fr)
             return
         for (bid, name) in _pat_ids(p):
             fr.locals[bid] = unk('pattern-binding')
@@ -879,6 +894,12 @@ class VG:
             lo = lit(0, 'i')
             hyps.append(op('lt', p, ('len', cur[1])))
             item = ('get', cur[1], p)
+        elif cur[0] == 'rev' and isinstance(cur[1], tuple) and cur[1] and cur[1][0] in ('iter', 'copied') and _iter_seq(cur[1]) is not None:
+            # reversed traversal: the p-th item is element len-1-p
+            seq = _iter_seq(cur[1])
+            lo = lit(0, 'i')
+            hyps.append(op('lt', p, ('len', seq)))
+            item = ('get', seq, op('isub', op('isub', ('len', seq), lit(1, 'i')), p))
         elif cur[0] == 'iter_mut':
             lo = lit(0, 'i')
             seq0 = self.read_place(cur[1])
